@@ -87,17 +87,16 @@ theorem assignLoop_unsplit (sv : Solver) (wf : sv.WF) (hdpos : ∀ x ∈ sv.d, 0
             have hm := hmono (q + 1) (by simp; omega)
             simpa only [List.getD_cons_succ] using hm
 
-theorem computeAssignment_unsplit (fuel : Nat) (pb : Problem) (hv : checkOk pb = true)
-    (p : List Int) (a : List Nat) (hrun : run (sortedSolver pb) fuel = .ok p)
+theorem computeAssignment_unsplit (pb : Problem) (hv : checkOk pb = true)
+    (p : List Int) (a : List Nat) (hrun : run (sortedSolver pb) = .ok p)
     (ha : computeAssignment (sortedSolver pb) p = .ok a) (k j : Nat)
     (hk : k < (sortedSolver pb).u.length) (hj : j < (sortedSolver pb).v.length)
     (h1 : (sortedSolver pb).D.getD j 0 ≤ (sortedSolver pb).S.getD k 0 + p.getD k 0)
     (h2 : (sortedSolver pb).S.getD (k + 1) 0 + p.getD k 0 ≤ (sortedSolver pb).D.getD (j + 1) 0) :
     a.getD k 0 = j := by
   have wf := sortedSolver_wf pb
-  have hp : RunPost (sortedSolver pb) p := by
-    have := run_safe (sortedSolver pb) wf fuel (sortedSolver_sinks pb hv)
-    rw [hrun] at this; exact this
+  have hp : RunPost (sortedSolver pb) p :=
+    (run_safe (sortedSolver pb) wf (sortedSolver_sinks pb hv)).of_ok hrun
   have hsl := sortedSolver_slack pb hv
   unfold computeAssignment at ha
   have hklen : k < p.length := by rw [hp.len]; exact hk
